@@ -8,6 +8,7 @@ package main
 // member and by C04 for the levels API).
 
 import (
+	pb "github.com/google/go-tdx-guest/proto/tdx"
 	"encoding/binary"
 	"encoding/hex"
 	"fmt"
@@ -43,7 +44,9 @@ type oQeRep struct {
 
 func qeRepOf(s *world.Spec) *oQeRep {
 	r := s.Quote.QeReport
-	return &oQeRep{misc: r.MiscSelect, attr: r.Attributes, mrs: r.MrSigner, prod: int(r.IsvProdId), isvsvn: int(r.IsvSvn)}
+	// the SIGNED report carries ISVPRODID and ISVSVN in 16 bits each; whatever else the 32-bit message fields hold is not part
+	// of the QE report (and the message shares this struct with the spec: a mutation after signing shows up here)
+	return &oQeRep{misc: r.MiscSelect, attr: r.Attributes, mrs: r.MrSigner, prod: int(r.IsvProdId & 0xffff), isvsvn: int(r.IsvSvn & 0xffff)}
 }
 
 func qeDocOfSpec(d *world.QeDoc) *oQeDoc {
@@ -339,6 +342,21 @@ func c7Faults(thorough bool) []c7Fault {
 		s.Qe.Levels = []world.QeLevel{{Isvsvn: lo, Status: "UpToDate"}}
 	})
 	add("isvprodid:65536-in-document", func(rng *rand.Rand, s *world.Spec) { s.Qe.IsvProdID = 65536 })
+	// the message carries ISVSVN / ISVPRODID in 32 bits, the signed report in 16: high bits added after signing leave the QE
+	// report signature valid for a truncating serialiser; the level lookup must still see the SIGNED value (here: OutOfDate)
+	add("isvsvn:high-bits-after-signing", func(rng *rand.Rand, s *world.Spec) {
+		s0 := 5 + rng.IntN(1000)
+		s.Quote.QeReport.IsvSvn = uint32(s0)
+		s.Qe.Levels = []world.QeLevel{{Isvsvn: s0 + 1 + rng.IntN(60000), Status: "UpToDate"}, {Isvsvn: s0, Status: "OutOfDate"}, {Isvsvn: 0, Status: "UpToDate"}}
+		k := uint32(1 + rng.IntN(3))
+		s.MsgMut = append(s.MsgMut, func(q *pb.QuoteV4) { qrep(q).IsvSvn += k << 16 })
+	})
+	add("isvprodid:high-bits-after-signing", func(rng *rand.Rand, s *world.Spec) {
+		k := 1 + rng.IntN(3)
+		p0 := int(s.Quote.QeReport.IsvProdId)
+		s.Qe.IsvProdID = p0 + k<<16
+		s.MsgMut = append(s.MsgMut, func(q *pb.QuoteV4) { qrep(q).IsvProdId += uint32(k) << 16 })
+	})
 	// --- level lists of length 0..5, ISVSVN below / at / above each level, every status, listed in descending and in ascending order
 	for n := 0; n <= 5; n++ {
 		for pos := 0; pos <= 2*n; pos++ { // pos 2k: strictly above threshold k (below k-1); 2k+1: at threshold k; 2n: below all
